@@ -276,6 +276,8 @@ def run_bin(ctx, w, tag, timeout=RUN_TIMEOUT):
             except ValueError:
                 pass
         os.unlink(tfile)
+    if "no space left on device" in (err + out).lower():
+        raise MachineryError("the disk is full (mockery: no space left on device): cannot decide anything")
     return vlib.RunResult(code, out, err, time.time() - t, to, evs)
 
 
@@ -505,7 +507,7 @@ def run_world(ctx, judge, name, cases, qstyle="simple", level="entry"):
     return []
 
 
-def run(ctx):
+def _run(ctx):
     thorough = ctx.thorough()
     T = [time.time()]
 
@@ -720,6 +722,14 @@ def run(ctx):
         "a value stable after <= 6 changing passes must resolve; slower convergent values may also be refused",
     ]
     return {"level": "model_checking", "exhaustive": False}
+
+
+def run(ctx):
+    """environment trouble (disk full, too many open files, ...) is never a verdict"""
+    try:
+        return _run(ctx)
+    except OSError as e:
+        raise MachineryError(f"operating system error while running the check: {e!r}")
 
 
 if __name__ == "__main__":
